@@ -41,7 +41,7 @@ INVARIANT OolRefines
 CHECK_DEADLOCK FALSE
 """
 
-BROKEN = ("strict", "susort", "nolen", "dollar", "negmask", "signedlowbyte")
+BROKEN = ("strict", "susort", "nolen", "dollar", "negmask", "signedlowbyte", "zerowidth-as-field")
 
 
 def q(names):
@@ -70,7 +70,7 @@ SCENARIOS = {
     "q_rich": dict(NONE, td=("t1",), tags=("s1",), feat=("anon", "bits", "arr", "nested"), n=2),
     "q_fn": dict(NONE, td=("t1",), fn=("f1",), gv=("g1",), feat=("fnp", "file"), n=2),
     # non-vacuity: "strict" and the broken variants must be caught somewhere in here
-    "sanity": dict(NONE, td=("t1",), k=("k1",), feat=("file", "arr", "anon", "bigconst", "biglen"), n=1),
+    "sanity": dict(NONE, td=("t1",), k=("k1",), feat=("file", "arr", "anon", "bigconst", "biglen", "bits"), n=1),
     # ---- thorough tier
     "types2": dict(NONE, td=("t1", "t2"), tags=("s1", "s2"), prims=("int", "char"), feat=("file", "fwd", "union"), n=2),
     "all2": dict(td=("t1", "t2"), tags=("s1", "s2"), en=("e1",), k=("k1",), fn=("f1",), gv=("g1",),
@@ -278,8 +278,9 @@ ALL_PRIMS = ["char", "signed char", "unsigned char", "_Bool", "short", "unsigned
 class Gen:
     """Random well-formed behaviours, much larger than TLC's pools.  Tracks just enough of the
     environment to respect the guards of Cdef.tla (TLC re-checks them: verdict 'guard')."""
-    def __init__(self, rng, c_safe=False, nested=True):
+    def __init__(self, rng, c_safe=False, nested=True, unnamed_bits=False):
         self.rng = rng
+        self.unnamed_bits = unnamed_bits
         self.c_safe = c_safe
         self.nested = nested
         self.td = {}         # name -> resolved term
@@ -435,6 +436,11 @@ class Gen:
                         inner.append(["g%d" % j, it, -1])
                     t = ["anon", r.choice(["struct", "union"]), inner]
                 fs.append(["f%d" % i, t, bits])
+            if self.unnamed_bits and key[0] == "struct" and r.random() < 0.25:
+                # unnamed bit-fields: "int :0;", "unsigned :3;", "long long :0;"
+                pad = r.choice([["", ["prim", "int"], 0], ["", ["prim", "unsigned int"], r.randrange(1, 33)],
+                                ["", ["prim", "long long"], 0], ["", ["prim", "unsigned int"], 0]])
+                fs.insert(r.randrange(0, len(fs) + 1), pad)
             for f in fs:
                 self.note(f[1])
             total = sum(8 + (sum(8 + self.approx_size(self.res(x[1])) for x in f[1][2]) if f[1][0] == "anon"
@@ -545,7 +551,7 @@ def wide_behaviour(rng, narrays=45, nfuncs=8, nargs=18):
 
 
 def random_behaviour(rng, length):
-    g = Gen(rng)
+    g = Gen(rng, unnamed_bits=True)
     tries = 0
     while len(g.beh) < length and tries < 10 * length:
         g.step()
